@@ -2,13 +2,44 @@
 CHT = 'std::__n4861::coroutine_handle<void>'
 DTYPES = {'CH': CHT, 'DQCH': 'std::deque<%s, std::allocator<%s > >' % (CHT, CHT)}
 DQB = [r'^std::deque<std::__n4861::coroutine_handle<void>']
-SCEN = ['dbg6', 'dbg1', 'dbg2', 'dbg3', 'dbg4', 'dbg5', 'start_value', 'start_throw', 'start_promise', 'start_claimed', 'detach', 'never_started', 'join', 'future_ctor', 'susp_resolved_later', 'susp_dropped', 'nested', 'void']
+SCEN = ['start_value', 'start_throw', 'start_promise', 'start_claimed', 'detach', 'never_started', 'join', 'future_ctor', 'void']
+HEAVY = ['susp_resolved_later', 'susp_dropped', 'nested']   # symbolic execution of these scenarios does not terminate within the budget (DESIGN C04)
 GV = {'GV_%s' % g: g for g in ('g_body_runs', 'g_guard_ctor', 'g_guard_dtor', 'g_seen_value', 'g_seen_exc', 'g_seen_canceled')}
 GV['GV_qinst'] = '_ZN5cocls10coro_queue8instanceE'
 def drive(s):
     return dict(name='drive_' + s, driver='c04_async.cpp', roots=['^drive_%s$' % s], names={}, types=DTYPES, globals=GV, boundary=DQB, lib=['rt_core.c', 'rt_atomic_seq.c', 'model_dq_ring.c'],
-                spec=['C04/h_drive.c'], harness='h_drive', defines=['DRV_%s 1' % s, 'CV_NO_SPURIOUS_CAS 1'], unwind=6, object_bits=11, cbmc_flags=['--max-field-sensitivity-array-size', '4096'], kind='bounded', timeout=200,
+                spec=['C04/h_drive.c'], harness='h_drive', defines=['DRV_%s 1' % s, 'CV_NO_SPURIOUS_CAS 1'], unwind=6, object_bits=11, cbmc_flags=['--max-field-sensitivity-array-size', '4096'], kind='bounded', timeout=300,
                 bounded='scenario %s: one start mode x completion mode of scripted coroutines, symbolic value, depth<=2, <=1 suspension' % s,
                 under_contract=['drive of lowered real code: async<T>::start/start(promise)/detach/join/co_await, async_promise, final_awaiter, future, coro_queue'])
-UNITS = [drive(s) for s in SCEN]
-META = dict(level='proof', level_text='', level_note='', trusted_base=[], assumptions=[])
+CTYPES = {'ASY': 'cocls::async<int>', 'CAW': 'cocls::async<int>::co_awaiter', 'APR': 'cocls::async_promise<int>', 'FAW': 'cocls::async_promise<int>::final_awaiter', 'FUT': 'cocls::future<int>',
+          'PROM': 'cocls::promise<int>', 'AWT': 'cocls::awaiter', 'SP': 'cocls::suspend_point<void>', 'SPB': 'cocls::suspend_point<bool>', 'CHP': 'std::__n4861::coroutine_handle<cocls::async_promise<int> >'}
+CGLOB = {'AW_INSTANCE': '_ZN5cocls7awaiter8instanceE', 'AW_DISABLED': '_ZN5cocls7awaiter8disabledE', 'NOOP_FRAME': '_ZNSt7__n486116coroutine_handleINS_22noop_coroutine_promiseEE5_S_frE'}
+DESTROY = r'^std::__n4861::coroutine_handle<cocls::async_promise<int> >::destroy\(\) const$'
+RESOLVE = r'^cocls::future<int>::resolve\(\)$'
+SN = r'^cocls::suspend_point<void>::suspend_now\(\)$'
+def cunit(name, rx, extra_opt=None, boundary=()):
+    opt = {'ch_destroy': DESTROY, 'fu_resolve': RESOLVE, 'sp_suspend_now': SN}; 
+    return dict(name=name, driver='c04_async.cpp', roots=[rx], names={name: rx}, names_opt=opt, types=CTYPES, globals=CGLOB, boundary=[DESTROY, RESOLVE, SN] + list(boundary), lib=['rt_core.c', 'rt_atomic_seq.c'],
+                spec=['C04/as_spec.h', 'C04/h_as.c'], harness='h_' + name, enforce=name, under_contract=[rx.strip('^$').replace('\\', '')])
+CUNITS = [
+    cunit('as_start_coro', r'^cocls::async<int>::start_coro\(\)$'),
+    cunit('as_start_promise', r'^cocls::async<int>::start_promise\(cocls::promise<int>&\)$'),
+    cunit('as_start_p', r'^cocls::async<int>::start\(cocls::promise<int>&\)$'),
+    cunit('as_detach', r'^cocls::async<int>::detach\(\)$'),
+    cunit('as_dtor', r'^cocls::async<int>::~async\(\)$'),
+    cunit('as_move', r'^cocls::async<int>::async\(cocls::async<int>&&\)$'),
+    cunit('as_co_await', r'^cocls::async<int>::operator co_await\(\)$'),
+    cunit('caw_await_suspend', r'^cocls::async<int>::co_awaiter::await_suspend\(std::__n4861::coroutine_handle<void>\)$'),
+    cunit('caw_await_ready', r'^cocls::async<int>::co_awaiter::await_ready\(\) const$'),
+    cunit('ap_resolve', r'^void cocls::async_promise<int>::resolve<int&>\(int&\)$'),
+    cunit('fa_await_suspend', r'^std::__n4861::coroutine_handle<void> cocls::async_promise<int>::final_awaiter::await_suspend<cocls::async_promise<int> >\('),
+]
+UNITS = CUNITS + [drive(s) for s in SCEN]
+META = dict(
+    level='proof',
+    level_text='Contract units (proof): async<int>::start_coro, start_promise, start(promise&), detach, ~async, async(async&&), operator co_await, co_awaiter::await_ready/await_suspend, async_promise::resolve, final_awaiter::await_suspend. Clauses from the property: the handle leaves the object exactly once; start(promise) on a claimed promise starts nothing and keeps the coroutine; detach binds nobody; ~async destroys exactly when a handle is still held; co_await wires the awaiting coroutine as the only waiter of the embedded future and binds the child to exactly that future; at final suspend the bound future is resolved strictly before the frame is destroyed, the frame is destroyed exactly once, one released waiter gets the symmetric transfer and the others are released through the discarded suspend point. Bounded drives (never counted as proved) execute really lowered scripted coroutines through the real library for start mode x completion mode (start value/throw, start(promise), start(claimed promise), detach, never started, join, future(async), async<void>): body ran exactly once, value/exception at exactly the bound party, every Guard (argument and local) destroyed exactly once, allocations == frees, normal mode restored.',
+    level_note='Trusted: clang front end incl. its coroutine lowering at -O0, ir2c, heap/exception primitives, ring model of the ready queue in the drives, abstract callees future::resolve / coroutine_handle::destroy / suspend_now in the contract units (their behaviour: C01/C02/C05). Frame layout assumption: the promise sits at offset 16 of the frame (what coroutine_handle<P>::promise() computes). NOT covered: drives with a coroutine that really suspends and is resumed later, and nested co_await chains - symbolic execution of those scenarios does not terminate in the budget (CBMC spends its time in field-sensitive dereferencing; three scenarios are kept in units.py as HEAVY, not run); these paths are covered only compositionally by the contract units plus C02/C05. Completion on another thread and thread-pool start are C02/C11. T = int (and void in one drive).',
+    technique='CBMC code contracts enforced via goto-instrument --dfcc on the C translation of clang IR of async.h; bounded symbolic execution (cbmc --unwind with unwinding assertions) of clang-lowered real coroutines for the start-mode x completion-mode matrix',
+    trusted_base=['abstract callees future<int>::resolve, coroutine_handle<async_promise<int>>::destroy, suspend_point::suspend_now (recording stubs, specs/C04/as_spec.h)', 'bounded FIFO ring model of std::deque<coroutine_handle<>> in the drives (lib/model_dq_ring.c)', 'clang -O0 coroutine lowering (ramp/.resume/.destroy) taken as the semantics of the coroutine bodies'],
+    assumptions=['promise object at frame offset 16', 'drives: concrete shapes, symbolic values, unwind 6', 'suspending / nested scenarios not executed (see level_note)'],
+    explanation='see level_text')
